@@ -270,6 +270,7 @@ def tlc_validate(trace_module, events, cfg=None, timeout=1800, trace_file="trace
             if m:
                 idx = int(m.group(2))
                 dst.append((m.group(1), idx, events[idx - 1] if 0 < idx <= len(events) else None))
+    v.details = [" ".join(m.group(0).split())[:1500] for m in re.finditer(r'<<\s*"DETAIL".{0,1500}', r.out, re.S)][:5]
     v.accepted = ("No error has been found" in r.out) and not r.errors and not r.violated
     if not v.accepted:
         v.reject_tail = "\n".join(r.out.splitlines()[-40:])
